@@ -345,6 +345,42 @@ PROPS['C14'] = {
 
 
 # ---------------------------------------------------------------------------------------------------------------
+# valid builder: validator set and rewards (C17, C19); mode `valid`; the S end monitors of the driver are the model itself
+_VALID_MODE = {'mode': 'valid', 'args': ['-seed', '{seed}', '-n', '{n:200:1500}', '-tier', '{tier}', '-driver', '{driver}', '-keep', '{keep}']}
+PROPS['C17'] = {
+    'level': 'proof', 'registered': False,
+    'modules': ['MinterProofs.Props.C17'],
+    'theorems': ['Minter.select_qualified', 'Minter.select_front', 'Minter.select_length', 'Minter.select_le_limit', 'Minter.select_sorted',
+                 'Minter.select_top', 'Minter.select_all_when_room', 'Minter.select_powers', 'Minter.powerOf_eq_max', 'Minter.powerOf_le_1e8',
+                 'Minter.validatorPowers_sum', 'Minter.validatorUpdates_spec',
+                 'Minter.pruned_not_validator', 'Minter.pruned_iff', 'Minter.pruned_worse', 'Minter.pruned_nil_of_le',
+                 'Minter.pruneBeyond_keeps', 'Minter.pruneBeyond_validator_stays', 'Minter.unbondAll_value', 'Minter.unbondAll_spec',
+                 'Minter.slotReplace_full', 'Minter.slotReplace_full_evicts', 'Minter.slotReplace_full_rejects', 'Minter.slotReplace_free',
+                 'Minter.slotReplace_conserves', 'Minter.applyUpdates_conserves', 'Minter.slotReplace_kicked_mem'],
+    'modes': [_VALID_MODE],
+    'campaigns': [camp('staking', 24, 200)],
+    'assumptions': ['recalcCandidate as a whole (merging updates into existing stakes, filteredUpdates, the sort by stale bip values) has no theorem: only the replacement step and its fold are proved; tied by Q slot (base coin only); calculateBipValue for custom coins is a parameter',
+                    'the composition recalculation -> pruning -> selection -> SetNewValidators is not one theorem: the campaign monitor validatorSetModel checks the end result on the node after every validator-set update',
+                    'candidate ids are unique (Go map key); at least one stake slot'],
+    'claim_draft': "Lean theorems about the validator-set model (MinterModel/Validators.lean: stable sort with the node's two comparators, GetNewCandidates, updateValidators' powers, RecalculateStakesV2's pruning, DeleteCandidate, the slot replacement of recalculateStakes), for all candidate lists and integers: the selected validators are candidates that are online with stake >= the minimum, nobody is invented or duplicated, their number is min(limit, #qualified), they are sorted by (stake desc, id desc) and every qualified candidate left out ranks below every selected one (select_qualified, select_front, select_length, select_le_limit, select_sorted, select_top, select_all_when_room); powers are max(1, floor(stake*10^8/total)), each >= 1 and <= 10^8, their sum <= 10^8 + n (select_powers, powerOf_eq_max, powerOf_le_1e8, validatorPowers_sum, validatorUpdates_spec); candidates removed by pruning are exactly the non-validators at positions >= limit of the (stake desc, id asc) order - a current validator is never removed - and the frozen funds of a removed candidate carry, coin by coin, all its stakes and updates with full values (pruned_not_validator, pruned_iff, pruned_worse, pruned_nil_of_le, pruneBeyond_keeps, pruneBeyond_validator_stays, unbondAll_value, unbondAll_spec); with all slots full an incoming update replaces the first stake of smallest bip value iff it is not smaller, the loser goes to the waitlist with its full coin value, a free slot kicks nobody, and per coin slots + waitlist after = slots + updates before (slotReplace_full, slotReplace_full_evicts, slotReplace_full_rejects, slotReplace_free, slotReplace_conserves, applyUpdates_conserves, slotReplace_kicked_mem). Tie: mode valid builds generated genesis states (1-137 candidates, 998-1003-stake candidates with updates around the smallest stake, ties, stale bip values), runs the real InitChain and three blocks and compares ResponseInitChain.Validators, ValidatorUpdates, StakeKick/RemoveCandidate events and the next export with the Lean functions (Q select powers updates prune slot unbond setnew); node level: after every validator-set update of the staking campaign the validators must be exactly selectValidators of the candidates and carry their total stake (VIOL C17 selected-candidate-not-validator / validator-not-selected / validator-stake-differs-from-candidate). Partial: see assumptions (recalcCandidate as a whole, custom-coin bip values, composition not one theorem).",
+}
+PROPS['C19'] = {
+    'level': 'proof', 'registered': False,
+    'modules': ['MinterProofs.Props.C19'],
+    'theorems': ['Minter.accrue_get', 'Minter.accrue_absent', 'Minter.accrue_conserves', 'Minter.accrue_remainder_nonneg', 'Minter.gainOf_bounds',
+                 'Minter.returnDropped_get', 'Minter.returnDropped_conserves', 'Minter.endBlockAccrue_conserves', 'Minter.endBlockAccrue_remainder_nonneg',
+                 'Minter.payout_balance', 'Minter.payout_remainder', 'Minter.payout_remainder_nonneg', 'Minter.payout_main', 'Minter.payout_shares',
+                 'Minter.payout_plain', 'Minter.stakeStep_plain_pays', 'Minter.foldl_pays', 'Minter.payoutAll_balance'],
+    'modes': [_VALID_MODE],
+    'campaigns': [camp('staking', 24, 200), camp('ledger', 8, 100)],
+    'assumptions': ['hypothesis of payout_remainder_nonneg / payout_main: sum of the stakes\' bip values <= the validator\'s recorded total stake; reachability is argued (bip values change only in recalculateStakes, followed by SetNewValidators) and checked by the monitor validatorSetModel after every update, not proved; at the excluded point the real node panics "Negative remainder" and the model agrees (run by the mode on every run)',
+                    'hypothesis PayOK.calc3: calcReward <= 3*safeReward (UpdatePriceFix returns reward <= safeReward, C28); at the excluded point the node\'s own invariant checker panics at Commit with exactly the amount the model calls lost',
+                    'pot0 = reward + fees is an input of endBlockAccrue; that the fee pool holds exactly the commissions is C27'],
+    'claim_draft': "Lean theorems about the reward model (MinterModel/Validators.lean: the first two loops of EndBlock, calculatePowers, PayRewardsV5Fix with both x3 branches verbatim), for all validator lists, stakes and integers: in the accrual a validator changes iff it is present and not dropped, and then only by floor(pot*stake/totalPower); the gains plus the remainder equal the pot, the remainder is >= 0; rewards of dropped validators return to the pot and they end with 0 (accrue_get, accrue_absent, accrue_conserves, accrue_remainder_nonneg, gainOf_bounds, returnDropped_get, returnDropped_conserves, endBlockAccrue_conserves, endBlockAccrue_remainder_nonneg); at a payout: paid + remainder + lost = accrued + moreRewards unconditionally (payout_balance, payoutAll_balance), DAO and developers get floor(10%) each, the validator exactly floor(commission% of the rest), each plain delegator floor(rest*bip/stake) (payout_shares, payout_plain, stakeStep_plain_pays, foldl_pays, payout_remainder), and under the stated hypotheses nothing is lost, no payment is negative, the remainder is >= 0 and the total paid never exceeds accrued + moreRewards, where moreRewards is exactly the increased reward of locked stakes (payout_remainder_nonneg, payout_main). Tie: mode valid compares accumulators, RewardEvents, slashed delta and the emission counter of the real EndBlock (accrual blocks, payout blocks, dropped validators, locked delegators, reward pairs up to 3x) with the Lean functions (Q accrue setaccrue payout payblock) and runs the two excluded points on the real node; node level: on every block of the staking and ledger campaigns endBlockAccrue on the live projection before EndBlock must give the accumulators and the slashed delta the node shows after, on payout blocks payoutAll must give the slashed delta and lose nothing (VIOL C19 wrong-accrual / accrued-while-not-present / accrual-remainder / payout-remainder / payout-loses-rewards / accum-not-reset-by-payout / model-predicts-negative-remainder-panic). Partial: the two hypotheses above are argued and monitored, not proved reachable-state invariants.",
+}
+
+
+# ---------------------------------------------------------------------------------------------------------------
 # What is claimed (MANIFEST.json is generated from this by tools/gen_manifest.py)
 CLAIMS = {
  'C01': "Lean theorems: every plan the model's DeliverTx can produce is built from value moves that are balanced by construction (Move.balanced, planOf_balanced), and checked application of a balanced plan preserves volume=holdings for every custom coin and the base-coin total up to recorded emission (balanced_preserves, C01_deliver_conserves, C01_block_body_conserves); for all states, transactions and oracle answers. Tie: model executed next to the real node on generated histories; monitors volumesOk/baseDeltaOk (the same Lean definitions) evaluated on the node's export at every commit.",
